@@ -49,6 +49,9 @@ def scenarios(family, rng, n_rounds=6):
             yield {"k": "call", "api": "StabilizerState.entropy", "n": n, "qs": qs, "pkg": "py"}
             yield {"k": "call", "api": "StabilizerState.entropy", "n": n, "qs": qs + [n + 1 + t % 3], "pkg": "py"}
             yield {"k": "call", "api": "StabilizerState.postselect", "n": n, "r": rng.randrange(n + 1), "pkg": "py"}
+            yield {"k": "call", "api": "StabilizerState.measure", "n": n, "m": n, "pkg": "py"}
+            if n > 1:
+                yield {"k": "call", "api": "StabilizerState.measure", "n": n, "m": n - 1, "pkg": "py"}
     elif family == "diag":
         for arg in ("Pauli", "StabilizerState", "PauliList", "PauliPolynomial", "CliffordMap"):
             yield {"k": "call", "api": "diagonalize", "arg": arg}
@@ -164,6 +167,14 @@ def execute(scn, be):
         elif api == "StabilizerState.entropy":
             S = be.stabilizer.ghz_state(scn["n"])
             S.entropy([q - 1 for q in scn["qs"]])
+        elif api == "StabilizerState.measure":
+            S = be.stabilizer.zero_state(scn["n"])
+            before = be.p_state(S)
+            try:
+                S.measure(be.plist([[1] + [0] * (scn["m"] - 1) + [0]]))       # X on the first qubit: anticommutes with row 0
+            except Exception:
+                same = be.p_state(S) == before
+                raise
         elif api == "StabilizerState.postselect":
             S = be.stabilizer.maximally_mixed_state(scn["n"])
             S = be.stabilizer.StabilizerState(S.gs, ps=S.ps).set_r(scn["r"]) if hasattr(S, "gs") else S
